@@ -61,6 +61,11 @@ def generate(tier, seed):
             "EVAL (let ((h (make-hash-table)) (x 5)) (puthash 'x 'interned h) (funcall (lambda () (list (gethash 'x h) (gethash (make-symbol \"x\") h) (gethash (intern \"x\") h)))))",
             "EVAL (let ((x 1)) (funcall (lambda () (assoc 'x (list (cons (make-symbol \"x\") 'uninterned) (cons 'x 'interned))))))",
             "EVAL (let ((x 1)) (funcall (lambda () (plist-get (list (make-symbol \"x\") 'uninterned 'x 'interned) 'x))))"]
+    sym += ["EVAL (list (eq (make-symbol \":k\") :k) (eq (make-symbol \":k\") (make-symbol \":k\")) (equal (make-symbol \":k\") :k) (eq (gensym \":g\") (intern \":g0\")))",
+            "EVAL (let ((h (make-hash-table))) (puthash :k 'kw h) (puthash (make-symbol \":k\") 'un h) (list (gethash :k h) (gethash (make-symbol \":k\") h) (gethash (intern \":k\") h)))",
+            "EVAL (let ((h (make-hash-table)) (hits 0)) (dotimes (i 400) (puthash (concat \"key\" \"\") i h)) (dotimes (i 200) (if (gethash (concat \"key\" \"\") h) (setq hits (+ hits 1)))) hits)",
+            "EVAL (let ((h (make-hash-table)) (hits 0) (ks nil)) (dotimes (i 300) (setq ks (cons (format \"k%d\" (mod i 7)) ks)) (puthash (car ks) i h)) (dolist (k ks) (if (gethash (format \"%s\" k) h) (setq hits (+ hits 1)))) (list hits (length (seq-filter (lambda (k) (gethash k h)) ks))))",
+            "EVAL (let ((h (make-hash-table)) (hits 0)) (dotimes (i 300) (puthash (list i) i h) (puthash (+ i 0.5) i h)) (dotimes (i 300) (if (gethash (list i) h) (setq hits (+ hits 1))) (if (gethash (+ i 0.5) h) (setq hits (+ hits 1000)))) hits)"]
     lines += ["NEW"] + sym
     # hash tables
     keys = ["'a", "'b", "1", "1.0", '"s"', "ks", "kl", ":k", "nil", "t", "2", "1.5", "0.0", "-0.0", "kl2", "ks2"]
